@@ -141,7 +141,7 @@ Definition Ready (st : state) : Prop :=
   c_dot (fst st) = false /\ (s_open (srvof st) = true -> s_data (srvof st) = None).
 
 Definition keeps_session (line : cmd) : Prop :=
-  match line with CEhlo _ | CHelo _ | CGreet | CJunk => False | _ => True end.
+  match line with CEhlo _ | CHelo _ | CStartTLS | CGreet | CJunk => False | _ => True end.
 
 Lemma srv_apply_keeps : forall s line code s' cm,
   keeps_session line -> srv_apply s line code = (s', cm) ->
@@ -627,7 +627,8 @@ End Mail.
 
 (* ---------- the repaired sendSingleMsg: any fixes record with the five recovery actions present ---------- *)
 Definition dialogue_repaired (F : fixes) : Prop :=
-  fx_abort F = true /\ fx_data_rset F = true /\ fx_rc_mail F = true /\ fx_rc_rcpt F = true /\ fx_rc_data F = true.
+  fx_abort F = true /\ fx_data_rset F = true /\ fx_rc_mail F = true /\ fx_rc_rcpt F = true /\ fx_rc_data F = true /\
+  fx_ehlo_replace F = true.
 
 Section Repaired.
 Variable F0 : fixes.
@@ -637,7 +638,8 @@ Let F_abort : fx_abort F0 = true := proj1 F_repaired.
 Let F_data_rset : fx_data_rset F0 = true := proj1 (proj2 F_repaired).
 Let F_rc_mail : fx_rc_mail F0 = true := proj1 (proj2 (proj2 F_repaired)).
 Let F_rc_rcpt : fx_rc_rcpt F0 = true := proj1 (proj2 (proj2 (proj2 F_repaired))).
-Let F_rc_data : fx_rc_data F0 = true := proj2 (proj2 (proj2 (proj2 F_repaired))).
+Let F_rc_data : fx_rc_data F0 = true := proj1 (proj2 (proj2 (proj2 (proj2 F_repaired)))).
+Let F_ehlo : fx_ehlo_replace F0 = true := proj2 (proj2 (proj2 (proj2 (proj2 F_repaired)))).
 
 Lemma rcpt_loop_spec : forall esc rcpts st acc st' acc' from done,
   Base st -> Ready st -> InTxn st ->
@@ -853,90 +855,204 @@ Definition Dialing (st : state) : Prop :=
   c_open (fst st) = true /\ c_dot (fst st) = false /\ w_commits (snd st) = [] /\
   (s_open (srvof st) = true -> s_data (srvof st) = None /\ s_txn (srvof st) = TIdle).
 
-Lemma hello_cmd_spec : forall expect line c w st' r,
-  Dialing (c, w) -> (exists n, line = CEhlo n \/ line = CHelo n) ->
+(* the three commands of the dial dialogue after the greeting *)
+Definition dial_cmd (line : cmd) : Prop :=
+  match line with CEhlo _ | CHelo _ | CStartTLS => True | _ => False end.
+
+Lemma dial_cmd_spec : forall expect line c w st' r,
+  Dialing (c, w) -> dial_cmd line ->
+  (s_open (w_srv w) = true -> legal (w_srv w) line = true) ->
   do_cmd expect line (c, w) = (st', r) ->
   Dialing st' /\ fst st' = c /\
-  (forall code text, r = ROk code text -> expect = 250 ->
-     s_open (srvof st') = true /\ s_helo (srvof st') = true /\
-     s_ext (srvof st') = match line with CEhlo _ => s_caps (w_srv w) | _ => [] end).
+  (forall code text, r = ROk code text ->
+     expect_ok expect code = true /\ s_open (w_srv w) = true /\ s_open (srvof st') = true /\
+     srvof st' = fst (srv_apply (w_srv w) line code)).
 Proof.
-  intros expect line c w st' r (HL & HA & HQ & Hco & Hd & HC & HS) (n & Hline) H.
+  intros expect line c w st' r (HL & HA & HQ & Hco & Hd & HC & HS) Hline Hleg H.
   unfold srvof in *; cbn [fst snd] in *.
   destruct (s_open (w_srv w)) eqn:Hso.
-  - destruct (HS eq_refl) as [Hdat Htx].
+  - destruct (HS eq_refl) as [Hdat Htx]. specialize (Hleg eq_refl).
     rewrite do_cmd_live in H by auto. inversion H; subst st' r; clear H.
     pose proof (cmd_post_outcome expect line w) as O.
     set (w' := fst (cmd_post expect line w)) in *.
     set (r' := snd (cmd_post expect line w)) in *.
-    assert (Hleg : legal (w_srv w) line = true) by (destruct Hline; subst; reflexivity).
     cbn [fst snd]. split; [|split; [reflexivity|]].
     + outcome_cases O; rewrite Hw'; unfold Dialing, srvof; cbn [fst snd w_trace w_attr w_queue w_commits w_srv].
       * split; [erewrite all_legal_snoc by reflexivity; cbn; rewrite HL, Hleg; reflexivity|].
         split; [exact HA|]. split; [reflexivity|]. split; [exact Hco|]. split; [exact Hd|]. split; [exact HC|].
         cbn. discriminate.
       * assert (cm = None /\ s_data s' = None /\ s_txn s' = TIdle).
-        { destruct Hline; subst line; cbn in Ha; destruct (okclass code); inversion Ha; subst; cbn; auto. }
+        { destruct line; cbn in Hline; try contradiction; cbn in Ha;
+          [destruct (okclass code)|destruct (okclass code)|destruct (code =? 220)]; inversion Ha; subst; cbn; auto. }
         destruct H as (-> & Hd' & Ht'). cbn [opt_list]. rewrite app_nil_r.
         split; [erewrite all_legal_snoc by reflexivity; cbn; rewrite HL, Hleg; reflexivity|].
         split; [eapply attr_snoc; [reflexivity|exact HA]|].
         split; [reflexivity|]. split; [exact Hco|]. split; [exact Hd|]. split; [exact HC|]. auto.
-    + intros code text Hr He. subst expect.
+    + intros code text Hr.
       outcome_cases O; [rewrite Hres in Hr; discriminate|].
-      rewrite Hres in Hr. destruct (expect_ok 250 code0) eqn:Hx; [|discriminate].
-      apply expect_250 in Hx. subst code0. rewrite Hw'. unfold srvof; cbn [snd w_srv].
-      destruct Hline; subst line; cbn in Ha; inversion Ha; subst; cbn; auto.
+      rewrite Hres in Hr. destruct (expect_ok expect code0) eqn:Hx; [|discriminate].
+      inversion Hr; subst code0 text0. rewrite Hw'. unfold srvof; cbn [snd w_srv]. rewrite Ha. cbn [fst].
+      split; [exact Hx|]. split; [reflexivity|]. split; [|reflexivity].
+      destruct line; cbn in Hline; try contradiction; cbn in Ha;
+        [destruct (okclass code)|destruct (okclass code)|destruct (code =? 220)]; inversion Ha; subst; cbn; exact Hso.
   - rewrite do_cmd_dead in H by auto. inversion H; subst; clear H. cbn [fst snd].
     split; [|split; [reflexivity|intros; discriminate]].
     unfold Dialing, srvof; cbn [fst snd]. repeat split; auto; rewrite Hso in *; discriminate.
 Qed.
 
-Lemma dial_spec : forall caps script w1 c,
-  dial X0 cfg (world_init caps script) = (w1, Some c) -> Inv (c, w1) /\ w_commits w1 = [].
+(* what a successful hello / STARTTLS leaves behind: the client's extension map is the set the server
+   advertised in the EHLO it accepted last, or nil after the HELO fallback (server: no extensions) *)
+Definition hello_post (st : state) : Prop :=
+  s_open (srvof st) = true /\ s_helo (srvof st) = true /\
+  match c_ext (fst st) with
+  | Some l => l = s_ext (srvof st) /\ l = (if s_tls (srvof st) then s_caps_tls (srvof st) else s_caps (srvof st))
+  | None => s_ext (srvof st) = []
+  end.
+
+Lemma Dialing_cli : forall c c' w, c_open c' = c_open c -> c_dot c' = c_dot c -> Dialing (c, w) -> Dialing (c', w).
+Proof. intros c c' w Ho Hd D. unfold Dialing, srvof in *; cbn [fst snd] in *. rewrite Ho, Hd. exact D. Qed.
+
+(* every EHLO replaces the extension map *)
+Lemma do_ehlo_spec : forall name c w st' r,
+  Dialing (c, w) -> do_ehlo X0 true name (c, w) = (st', r) ->
+  Dialing st' /\
+  match r with
+  | ROk _ _ => hello_post st' /\ s_tls (srvof st') = s_tls (w_srv w) /\
+               s_caps (srvof st') = s_caps (w_srv w) /\ s_caps_tls (srvof st') = s_caps_tls (w_srv w)
+  | RErr _ => fst st' = c
+  end.
 Proof.
-  intros caps script w1 c H. unfold dial in H.
-  set (w0 := world_init caps script) in *.
-  rewrite deliver_cmd in H by (cbn; auto).
-  pose proof (cmd_post_outcome 220 CGreet w0) as O.
-  unfold cmd_post in O. unfold srv_step in *.
+  intros name c w st' r HD H. unfold do_ehlo in H. cbn [x_ehlo X0] in H.
+  destruct (do_cmd 250 (CEhlo name) (c, w)) as [[c1 w1] r1] eqn:Hc.
+  destruct (dial_cmd_spec 250 (CEhlo name) _ _ _ _ HD I (fun _ => eq_refl) Hc) as (HD1 & Hc1 & HOk).
+  cbn [fst] in Hc1. subst c1.
+  destruct r1 as [code t|e]; inversion H; subst st' r; clear H.
+  - destruct (HOk _ _ eq_refl) as (Hx & Hso0 & Hso & Hs). apply expect_250 in Hx. subst code.
+    unfold srvof in *; cbn [fst snd] in *. cbn in Hs.
+    split; [eapply Dialing_cli; [| |exact HD1]; destruct c; reflexivity|].
+    rewrite Hs. cbn. unfold hello_post, srvof; cbn [fst snd]. rewrite Hs. cbn.
+    split; [|auto]. split; [rewrite Hs in Hso; exact Hso|]. split; [reflexivity|].
+    destruct c; cbn. auto.
+  - split; [exact HD1|reflexivity].
+Qed.
+
+Lemma do_hello_spec : forall name c w st' r,
+  Dialing (c, w) -> do_hello X0 true name (c, w) = (st', r) ->
+  Dialing st' /\
+  match r with
+  | ROk _ _ => hello_post st' /\ (c_ext (fst st') <> None -> s_tls (srvof st') = s_tls (w_srv w))
+  | RErr _ => True
+  end.
+Proof.
+  intros name c w st' r HD H. unfold do_hello in H.
+  destruct (do_ehlo X0 true name (c, w)) as [[c1 w1] r1] eqn:He.
+  destruct (do_ehlo_spec _ _ _ _ _ HD He) as (HD1 & P1).
+  destruct r1 as [code t|e].
+  - inversion H; subst st' r; clear H. split; [exact HD1|]. destruct P1 as (P & T & _). split; [exact P|auto].
+  - cbn [fst] in P1. subst c1. cbn [x_helo X0] in H.
+    assert (HD1' : Dialing (set_cext c None, w1)) by (eapply Dialing_cli; [| |exact HD1]; destruct c; reflexivity).
+    destruct (dial_cmd_spec 250 (CHelo name) _ _ _ _ HD1' I (fun _ => eq_refl) H) as (HD2 & Hc2 & HOk).
+    split; [exact HD2|]. destruct r as [code t|e2]; [|exact I].
+    destruct (HOk _ _ eq_refl) as (Hx & _ & Hso & Hs). apply expect_250 in Hx. subst code. cbn in Hs.
+    unfold hello_post. rewrite Hc2. cbn [c_ext set_cext]. rewrite Hs. cbn.
+    split; [|intros C; destruct c; cbn in C; contradiction].
+    split; [rewrite Hs in Hso; exact Hso|]. split; [reflexivity|]. destruct c; reflexivity.
+Qed.
+
+Lemma extension_has : forall c e, extension c e = true -> exists l, c_ext c = Some l /\ has_ext l e = true.
+Proof. intros c e H. unfold extension in H. destruct (c_ext c) as [l|]; [eauto|discriminate]. Qed.
+
+Lemma tls_step_spec : forall st st' ok,
+  Dialing st -> hello_post st -> (c_ext (fst st) <> None -> s_tls (srvof st) = false) ->
+  tls_step X0 F0 cfg st = (st', ok) ->
+  Dialing st' /\ (ok = true -> hello_post st').
+Proof.
+  intros [c w] st' ok HD HP HT H. unfold tls_step in H. rewrite F_ehlo in H. cbn [fst] in H.
+  assert (Hrun : forall st1 ok1,
+     extension c ESTARTTLS = true ->
+     match do_starttls X0 true (cf_helo cfg) (c, w) with
+     | (st1, ROk _ _) => (st1, true) | (st1, RErr _) => (st1, false) end = (st1, ok1) ->
+     Dialing st1 /\ (ok1 = true -> hello_post st1)).
+  { intros st1 ok1 Hext Hr. unfold do_starttls in Hr. cbn [x_starttls X0] in Hr.
+    destruct (extension_has _ _ Hext) as (l & Hl & Hhas).
+    destruct HP as (Hso & Hh & Hm). unfold srvof in *; cbn [fst snd] in *. rewrite Hl in Hm. destruct Hm as [Hm _].
+    assert (Htls : s_tls (w_srv w) = false) by (apply HT; rewrite Hl; discriminate).
+    assert (Hleg : s_open (w_srv w) = true -> legal (w_srv w) CStartTLS = true).
+    { intros _. cbn. rewrite <- Hm, Hhas, Htls. reflexivity. }
+    destruct (do_cmd 220 CStartTLS (c, w)) as [[c1 w1] r1] eqn:Hc.
+    destruct (dial_cmd_spec 220 CStartTLS _ _ _ _ HD I Hleg Hc) as (HD1 & Hc1 & HOk). cbn [fst] in Hc1. subst c1.
+    destruct r1 as [code t|e].
+    - assert (HD1' : Dialing (set_dot c false, w1)).
+      { eapply Dialing_cli; [| |exact HD1]; [apply c_open_set_dot|]. rewrite c_dot_set_dot.
+        destruct HD1 as (_ & _ & _ & _ & Hd & _). exact (eq_sym Hd). }
+      destruct (do_ehlo X0 true (cf_helo cfg) (set_dot c false, w1)) as [st2 r2] eqn:He.
+      destruct (do_ehlo_spec _ _ _ _ _ HD1' He) as (HD2 & P2).
+      destruct r2; inversion Hr; subst; (split; [exact HD2|]); [intros _; exact (proj1 P2)|discriminate].
+    - inversion Hr; subst. split; [exact HD1|discriminate]. }
+  destruct (cf_tls cfg).
+  - inversion H; subst. split; [exact HD|intros _; exact HP].
+  - destruct (extension c ESTARTTLS) eqn:Hext; [exact (Hrun _ _ eq_refl H)|].
+    inversion H; subst. split; [exact HD|intros _; exact HP].
+  - destruct (extension c ESTARTTLS) eqn:Hext; [exact (Hrun _ _ eq_refl H)|].
+    inversion H; subst. split; [exact HD|discriminate].
+Qed.
+
+(* the whole dial *)
+Lemma dial_full : forall caps caps_tls script w1 oc,
+  dial X0 F0 cfg (world_init caps caps_tls script) = (w1, oc) ->
+  all_legal w1 = true /\ all_attributed w1 = true /\ w_commits w1 = [] /\
+  (forall c, oc = Some c -> Dialing (c, w1) /\ hello_post (c, w1)).
+Proof.
+  intros caps caps_tls script w1 oc H. unfold dial in H. rewrite F_ehlo in H.
+  set (w0 := world_init caps caps_tls script) in *.
+  rewrite deliver_cmd in H by (cbn; auto). unfold srv_step in H.
   destruct (next_decision (w_script w0)) as [d script'].
   destruct (reply_of d CGreet) as [[code text]|].
   - cbn [srv_apply] in H. cbn [w_queue w0 world_init app] in H.
     unfold read_reply in H. cbn [c_open cli_init negb w_queue x_greet X0] in H.
-    destruct (expect_ok 220 code) eqn:He; [|discriminate].
-    match type of H with context [do_hello _ _ ?st] => set (st1 := st) in H end.
-    assert (HD1 : Dialing st1).
-    { unfold st1, Dialing, srvof, all_legal, all_attributed, attr_match; cbn. repeat split; auto. }
-    unfold do_hello in H. cbn [x_ehlo x_helo X0] in H.
-    destruct (do_cmd 250 (CEhlo (cf_helo cfg)) st1) as [[c2 w2] r2] eqn:He2.
-    destruct (hello_cmd_spec _ _ _ _ _ _ HD1 (ex_intro _ _ (or_introl eq_refl)) He2) as (HD2 & Hc2 & HOk2).
-    cbn [fst] in Hc2. subst c2.
-    destruct r2 as [c2 t2|e2].
-    + inversion H; subst w1 c; clear H.
-      destruct (HOk2 _ _ eq_refl eq_refl) as (Hso & Hh & Hx). unfold srvof in *; cbn [fst snd] in *.
-      destruct HD2 as (HL & HA & HQ & Hco & Hd & HC & HS). unfold srvof in *; cbn [fst snd] in *.
-      destruct (HS Hso) as [Hdat Htx].
-      split; [|exact HC]. split; [|split].
-      * constructor; unfold live, srvof; cbn [fst snd]; auto.
-        intros _ l Hl. cbn in Hl. inversion Hl. reflexivity.
-      * intros _. cbn. split; [reflexivity|auto].
-      * intros _. exact Htx.
-    + destruct (do_cmd 250 (CHelo (cf_helo cfg)) (set_cext cli_init None, w2)) as [[c3 w3] r3] eqn:He3.
-      assert (HD2' : Dialing (set_cext cli_init None, w2)).
-      { destruct HD2 as (HL & HA & HQ & Hco & Hd & HC & HS). unfold Dialing, srvof in *; cbn [fst snd] in *. repeat split; auto; apply HS; auto. }
-      destruct (hello_cmd_spec _ _ _ _ _ _ HD2' (ex_intro _ _ (or_intror eq_refl)) He3) as (HD3 & Hc3 & HOk3).
-      cbn [fst] in Hc3. subst c3.
-      destruct r3 as [c3 t3|e3]; [|discriminate].
-      inversion H; subst w1 c; clear H.
-      destruct (HOk3 _ _ eq_refl eq_refl) as (Hso & Hh & Hx). unfold srvof in *; cbn [fst snd] in *.
-      destruct HD3 as (HL & HA & HQ & Hco & Hd & HC & HS). unfold srvof in *; cbn [fst snd] in *.
-      destruct (HS Hso) as [Hdat Htx].
-      split; [|exact HC]. split; [|split].
-      * constructor; unfold live, srvof; cbn [fst snd]; auto.
-        intros _ l Hl. cbn in Hl. discriminate.
-      * intros _. cbn. split; [reflexivity|auto].
-      * intros _. exact Htx.
-  - cbn [w_queue w0 world_init app] in H. unfold read_reply in H. cbn in H. discriminate.
+    destruct (expect_ok 220 code) eqn:He.
+    + match type of H with context [do_hello _ _ _ ?st] => set (st1 := st) in H end.
+      assert (HD1 : Dialing st1).
+      { unfold st1, Dialing, srvof, all_legal, all_attributed, attr_match; cbn. repeat split; auto. }
+      assert (HT1 : s_tls (srvof st1) = false) by reflexivity.
+      destruct st1 as [c1 w1'] eqn:Est1.
+      destruct (do_hello X0 true (cf_helo cfg) (c1, w1')) as [st3 r3] eqn:Hh.
+      destruct (do_hello_spec _ _ _ _ _ HD1 Hh) as (HD3 & P3).
+      destruct r3 as [c3 t3|e3].
+      * destruct P3 as (HP3 & HT3). destruct st3 as [c3' w3'].
+        destruct (tls_step X0 F0 cfg (c3', w3')) as [[c4 w4] ok] eqn:Ht.
+        assert (HT3' : c_ext (fst (c3', w3')) <> None -> s_tls (srvof (c3', w3')) = false).
+        { intros C. rewrite (HT3 C). exact HT1. }
+        destruct (tls_step_spec _ _ _ HD3 HP3 HT3' Ht) as (HD4 & P4).
+        pose proof HD4 as (HL & HA & _ & _ & _ & HC & _). cbn [fst snd] in *.
+        destruct ok; inversion H; subst; (split; [exact HL|split; [exact HA|split; [exact HC|]]]).
+        -- intros c E. inversion E; subst. split; [exact HD4|exact (P4 eq_refl)].
+        -- intros c E. discriminate.
+      * destruct st3 as [c3 w3]. pose proof HD3 as (HL & HA & _ & _ & _ & HC & _). cbn [fst snd] in *.
+        inversion H; subst. split; [exact HL|split; [exact HA|split; [exact HC|intros c E; discriminate]]].
+    + inversion H; subst. cbn. unfold all_legal, all_attributed, attr_match. cbn.
+      split; [reflexivity|split; [reflexivity|split; [reflexivity|intros c E; discriminate]]].
+  - cbn [w_queue w0 world_init app] in H. unfold read_reply in H. cbn in H. inversion H; subst.
+    unfold all_legal, all_attributed. cbn.
+    split; [reflexivity|split; [reflexivity|split; [reflexivity|intros c E; discriminate]]].
+Qed.
+
+Lemma hello_post_inv : forall c w, Dialing (c, w) -> hello_post (c, w) -> Inv (c, w).
+Proof.
+  intros c w (HL & HA & HQ & Hco & Hd & HC & HS) (Hso & Hh & Hm). unfold srvof in *; cbn [fst snd] in *.
+  destruct (HS Hso) as [Hdat Htx].
+  split; [|split].
+  - constructor; unfold live, srvof; cbn [fst snd]; auto.
+    intros _ l Hl. rewrite Hl in Hm. exact (proj1 Hm).
+  - intros _. cbn. auto.
+  - intros _. exact Htx.
+Qed.
+
+Lemma dial_spec : forall caps caps_tls script w1 c,
+  dial X0 F0 cfg (world_init caps caps_tls script) = (w1, Some c) -> Inv (c, w1) /\ w_commits w1 = [].
+Proof.
+  intros caps caps_tls script w1 c H. destruct (dial_full _ _ _ _ _ H) as (_ & _ & HC & HS).
+  destruct (HS c eq_refl) as [HD HP]. split; [apply hello_post_inv; assumption|exact HC].
 Qed.
 End Batch.
 
@@ -946,36 +1062,11 @@ Variable render : msg -> list bytes * option err.
 
 Definition world_ok (w : world) : Prop := all_legal w = true /\ all_attributed w = true.
 
-Lemma dial_world_ok : forall caps script w1 oc,
-  dial X0 cfg (world_init caps script) = (w1, oc) -> world_ok w1 /\ w_commits w1 = [].
+Lemma dial_world_ok : forall caps caps_tls script w1 oc,
+  dial X0 F0 cfg (world_init caps caps_tls script) = (w1, oc) -> world_ok w1 /\ w_commits w1 = [].
 Proof.
-  intros caps script w1 oc H. unfold dial in H.
-  set (w0 := world_init caps script) in *.
-  rewrite deliver_cmd in H by (cbn; auto).
-  unfold srv_step in *.
-  destruct (next_decision (w_script w0)) as [d script'].
-  destruct (reply_of d CGreet) as [[code text]|].
-  - cbn [srv_apply] in H. cbn [w_queue w0 world_init app] in H.
-    unfold read_reply in H. cbn [c_open cli_init negb w_queue x_greet X0] in H.
-    destruct (expect_ok 220 code) eqn:He.
-    + match type of H with context [do_hello _ _ ?st] => set (st1 := st) in H end.
-      assert (HD1 : Dialing st1).
-      { unfold st1, Dialing, srvof, all_legal, all_attributed, attr_match; cbn. repeat split; auto. }
-      unfold do_hello in H. cbn [x_ehlo x_helo X0] in H.
-      destruct (do_cmd 250 (CEhlo (cf_helo cfg)) st1) as [[c2 w2] r2] eqn:He2.
-      destruct (hello_cmd_spec _ _ _ _ _ _ HD1 (ex_intro _ _ (or_introl eq_refl)) He2) as (HD2 & Hc2 & _).
-      cbn [fst] in Hc2. subst c2.
-      destruct r2 as [c2 t2|e2].
-      * inversion H; subst. destruct HD2 as (HL & HA & _ & _ & _ & HC & _). split; [split|]; assumption.
-      * destruct (do_cmd 250 (CHelo (cf_helo cfg)) (set_cext cli_init None, w2)) as [[c3 w3] r3] eqn:He3.
-        assert (HD2' : Dialing (set_cext cli_init None, w2)).
-        { destruct HD2 as (HL & HA & HQ & Hco & Hd & HC & HS). unfold Dialing, srvof in *; cbn [fst snd] in *. repeat split; auto; apply HS; auto. }
-        destruct (hello_cmd_spec _ _ _ _ _ _ HD2' (ex_intro _ _ (or_intror eq_refl)) He3) as (HD3 & _ & _).
-        destruct HD3 as (HL & HA & _ & _ & _ & HC & _). cbn [snd] in *.
-        destruct r3; inversion H; subst; (split; [split|]; assumption).
-    + inversion H; subst. cbn. unfold world_ok, all_legal, all_attributed, attr_match. cbn. auto.
-  - cbn [w_queue w0 world_init app] in H. unfold read_reply in H. cbn in H. inversion H; subst.
-    unfold world_ok, all_legal, all_attributed. cbn. auto.
+  intros caps caps_tls script w1 oc H. destruct (dial_full cfg _ _ _ _ _ H) as (HL & HA & HC & _).
+  split; [split; assumption|exact HC].
 Qed.
 
 Lemma close_with_spec : forall st st' b,
@@ -998,18 +1089,18 @@ Qed.
 Definition attempted (r : ret) : bool :=
   match r with RetDial | RetConnCheck => false | _ => true end.
 
-Theorem run_spec : forall caps script ms,
-  let o := run_case X0 F0 cfg caps script ms render in
+Theorem run_spec : forall caps caps_tls script ms,
+  let o := run_case X0 F0 cfg caps caps_tls script ms render in
   world_ok (o_world o) /\
   w_commits (o_world o) = batch_commits render ms (o_results o) /\
   (if attempted (o_ret o) then Forall2 (msg_post render) ms (o_results o)
    else o_results o = untouched ms).
 Proof.
-  intros caps script ms. unfold run_case, dial_and_send.
-  destruct (dial X0 cfg (world_init caps script)) as [w1 oc] eqn:Hd.
-  destruct (dial_world_ok _ _ _ _ Hd) as [Hok HC].
+  intros caps caps_tls script ms. unfold run_case, dial_and_send.
+  destruct (dial X0 F0 cfg (world_init caps caps_tls script)) as [w1 oc] eqn:Hd.
+  destruct (dial_world_ok _ _ _ _ _ Hd) as [Hok HC].
   destruct oc as [c|].
-  - destruct (dial_spec cfg _ _ _ _ Hd) as [(HB & HR & HI) _].
+  - destruct (dial_spec cfg _ _ _ _ _ Hd) as [(HB & HR & HI) _].
     unfold send_batch.
     destruct (check_conn X0 cfg (c, w1)) as [st1 e1] eqn:Hcc.
     destruct (check_conn_spec cfg _ _ _ HB HR Hcc) as (HB1 & HR1 & HW1 & HI1 & _).
@@ -1043,14 +1134,14 @@ Proof.
   split; [apply HI; apply live_true; auto|]. split; [auto|]. split; [apply (b_queue _ HB Hc)|exact Hd].
 Qed.
 
-Theorem clean_between_messages : forall caps script ms w1 c st1 e st2 rs,
-  dial X0 cfg (world_init caps script) = (w1, Some c) ->
+Theorem clean_between_messages : forall caps caps_tls script ms w1 c st1 e st2 rs,
+  dial X0 F0 cfg (world_init caps caps_tls script) = (w1, Some c) ->
   check_conn X0 cfg (c, w1) = (st1, e) ->
   send_msgs X0 F0 cfg render ms st1 = (st2, rs) ->
   clean_or_closed st2.
 Proof.
-  intros caps script ms w1 c st1 e st2 rs Hd Hc Hs.
-  destruct (dial_spec cfg _ _ _ _ Hd) as [(HB & HR & HI) _].
+  intros caps caps_tls script ms w1 c st1 e st2 rs Hd Hc Hs.
+  destruct (dial_spec cfg _ _ _ _ _ Hd) as [(HB & HR & HI) _].
   destruct (check_conn_spec cfg _ _ _ HB HR Hc) as (HB1 & HR1 & _ & HI1 & _).
   destruct (send_msgs_spec cfg render _ _ _ _ (conj HB1 (conj HR1 (HI1 HI))) Hs) as (Hinv2 & _).
   apply Inv_clean. exact Hinv2.
